@@ -171,6 +171,37 @@ func templates() []tmpl {
 			return nil
 		})
 	}
+	// oversized transactions (901 outputs, > 32 KiB = the default size limit of every rule set): size is a SOFT rule and must be
+	// judged after the hard rules - an oversized transaction that also creates hours is refused outright, an oversized but
+	// otherwise valid one is kept (flagged invalid) when it comes from a peer
+	huge := func(createHours bool) func(m *ledger.Model) *coin.Transaction {
+		return func(m *ledger.Model) *coin.Transaction {
+			ux := firstOut(m, idG, 0)
+			if ux == nil || ux.Body.Coins < 1000e6 {
+				return nil
+			}
+			avail, ok := accruedU64(m, *ux)
+			if !ok || avail < 4 || avail > 1<<62 {
+				return nil
+			}
+			outs := make([]outSpec, 0, 901)
+			var sum uint64
+			for i := uint64(0); i < 900; i++ {
+				c := (i + 1) * 1e3
+				outs = append(outs, outSpec{idC.Addr, c, 0})
+				sum += c
+			}
+			outs = append(outs, outSpec{idG.Addr, ux.Body.Coins - sum, 0})
+			if createHours {
+				outs[0].Hours = avail + 1
+			} else {
+				outs[0].Hours = avail / 2
+			}
+			return build([]coin.UxOut{*ux}, []cipher.SecKey{idG.Sec}, outs)
+		}
+	}
+	add("huge-creates-hours-G", huge(true))
+	add("huge-valid-G", huge(false))
 	// fund the locked distribution address, then try to spend from it (soft: locked)
 	add("pay-G-L", func(m *ledger.Model) *coin.Transaction { return pay(m, idG, idL, 0, nil, 1, 8, nil) })
 	add("pay-L-A", func(m *ledger.Model) *coin.Transaction { return pay(m, idL, idA, 0, nil, 1, 2, nil) })
